@@ -1195,7 +1195,7 @@ func monC12(tr *Trace, br map[string]int) (out []Violation) {
 			var want []string
 			for _, u := range s.Utxrs {
 				if u.Tenant == t {
-					want = append(want, u.Req+"*"+u.Amt.String())
+					want = append(want, u.Req+"*"+u.Amt.String()+"*"+u.Nft+"*"+fmt.Sprint(u.Created)+"*"+rcptKey(u.Rcpt))
 				}
 			}
 			if strings.Join(want, ",") != strings.Join(items, ",") {
@@ -1244,6 +1244,17 @@ func monC18(tr *Trace, br map[string]int) (out []Violation) {
 		}
 	})
 	return out
+}
+
+func rcptKey(rs []Rcpt) string {
+	if len(rs) == 0 {
+		return "-"
+	}
+	var out []string
+	for _, r := range rs {
+		out = append(out, fmt.Sprintf("%s^%d", r.Addr, r.Weight))
+	}
+	return strings.Join(out, "+")
 }
 
 // ---------- C14 ----------
